@@ -72,3 +72,34 @@ Print Assumptions C01_host_ipv6.
 (* the premises are met by the generated default configuration and by an ASCII oracle; a concrete run is RefineTotal.setters_ex *)
 Example C01_premises_met : std_cfg default_cfg /\ oracle_ok ascii_idna default_cfg /\ Verif.Proofs.MachineInv.H3 ascii_idna.
 Proof. exact total_premises. Qed.
+
+(* The state machine of the model is the state switch of the Go source (Proofs/TransitionGraph.v, TransitionTie.v).
+   Gen/Transitions.v is regenerated from /repo/url/parser.go on every run (harness/cmd/gentrans): the successor states
+   assigned in each `case StateX:` clause and the clauses that mention the base. Every step of the model follows an edge
+   of the Go switch, every edge of the Go switch is taken by some concrete step of the model, and the model reads the base
+   exactly in the states whose Go clause mentions it. *)
+From Verif Require Import Gen.Transitions Proofs.TransitionGraph Proofs.TransitionTie.
+
+Theorem C01_step_follows_go_switch : forall idna_raw c inp base ov m m',
+  step idna_raw c inp base ov m = Cont m' ->
+  m_state m' = m_state m \/ In (m_state m, m_state m') go_edges.
+Proof. exact step_follows_go_switch. Qed.
+Print Assumptions C01_step_follows_go_switch.
+
+Theorem C01_every_go_edge_is_taken : forall s s', In (s, s') go_edges -> realised s s'.
+Proof. exact every_go_edge_is_taken. Qed.
+Print Assumptions C01_every_go_edge_is_taken.
+
+Theorem C01_base_read_only_where_go_reads_it : forall idna_raw c inp b1 b2 ov m,
+  ~ In (m_state m) go_base_states -> step idna_raw c inp b1 ov m = step idna_raw c inp b2 ov m.
+Proof. exact base_read_only_where_go_reads_it. Qed.
+Print Assumptions C01_base_read_only_where_go_reads_it.
+
+Theorem C01_base_states_all_read_the_base : forall s, In s go_base_states -> In s model_base_states.
+Proof.
+  intros s H. destruct go_base_states_are_model_base_states as [Hs _]. unfold subset_states in Hs.
+  rewrite forallb_forall in Hs. specialize (Hs _ H). apply existsb_exists in Hs. destruct Hs as [t [Ht E]].
+  apply state_eqb_eq in E. subst. exact Ht.
+Qed.
+Print Assumptions C01_base_states_all_read_the_base.
+
